@@ -174,10 +174,12 @@ CLAIMED = {
     'C13': ('A', 'model_checking',
             'bounded-exhaustive enumeration of generated files opened by both reader families on the real code',
             'Every descriptor of the universe for the 7 formats with both reader families is opened with the '
-            'memory-mapped and the record reader on the same path; files either reader rejects are outside the '
-            'quantifier; common dimensions and variables must agree bit for bit (up to length-1 axes); a 5 s '
-            'watchdog turns non-termination into a violation.',
-            'only what both readers define is compared (record readers define no TFLAG)', 'DESIGN.md section 4 C13'),
+            'memory-mapped and the record reader on the same path; a file whose constructor raises in either reader '
+            'is outside the quantifier; the dimensions both expose are compared as soon as both constructors have '
+            'returned, then the common variables bit for bit (up to length-1 axes); the same path is then rewritten '
+            'with a sibling file and both readers are opened again; a 5 s watchdog turns non-termination into a violation.',
+            'only what both readers define is compared (record readers define no TFLAG); the deprecated '
+            'calendar arithmetic of the record readers is listed as known findings KF-C13-5..9', 'DESIGN.md section 4 C13'),
     'C14': ('D', 'fault_enumeration',
             'exhaustive crash-point enumeration: every byte prefix of every generated file opened by the real readers',
             'For ~65 (quick) / ~290 (thorough) generated files of 10 formats (incl. cloud/rain and land-use) EVERY '
